@@ -26,7 +26,7 @@ class Report:
         self.samples = []
         self.violations = []          # (case id, replay path)
         self.known = {}               # finding id -> [count, example]
-        self.findings = {f["deviation"]: f for f in load_findings(pid)}
+        self.findings = {} if os.environ.get("VERIF_IGNORE_FINDINGS") == "1" else {f["deviation"]: f for f in load_findings(pid)}
         self.exhaustive = None
         self.notes = {}
         self.spaces = []              # description of each enumerated space
@@ -65,6 +65,7 @@ class Report:
             if k[1] is None:
                 k[1] = detail
             return "known"
+        self._dev_of_last = dev
         self.violation(case_id, detail)
         return "violation"
 
@@ -73,8 +74,8 @@ class Report:
         from .common import workdir
         path = os.path.join(workdir(self.pid), "mismatches.ndjson")
         with open(path, "w") as f:
-            for cid, detail in self._all:
-                f.write(json.dumps({"case": cid, "detail": detail}, default=str) + "\n")
+            for cid, detail, dev in self._all:
+                f.write(json.dumps({"case": cid, "dev": dev, "detail": detail}, default=str) + "\n")
         return path
 
     def violation(self, case_id, detail):
@@ -86,7 +87,8 @@ class Report:
             with open(path, "w") as f:
                 json.dump({"property": self.pid, "case": case_id, "detail": detail}, f, indent=1, default=str)
         self.violations.append((case_id, path))
-        self._all.append((case_id, detail))
+        self._all.append((case_id, detail, getattr(self, "_dev_of_last", "")))
+        self._dev_of_last = ""
 
     def sample(self, s, limit=6):
         if len(self.samples) < limit:
